@@ -77,6 +77,12 @@ func drawRules(t *rapid.T, c *hx.Case, minT int) []*mrule {
 		for i := 0; i < nr; i++ {
 			r := &hotspot.Rule{ID: fmt.Sprintf("%s%d", res, i), Resource: res, MetricType: hotspot.Concurrency,
 				Threshold: int64(rapid.IntRange(minT, 3).Draw(t, "T")), SpecificItems: map[interface{}]int64{}}
+			if rapid.IntRange(0, 2).Draw(t, "behaviour") == 0 {
+				r.ControlBehavior = hotspot.Throttling // a concurrency rule counts in-flight entries whatever its control behaviour says
+			}
+			if rapid.IntRange(0, 3).Draw(t, "capacity") == 0 {
+				r.ParamsMaxCapacity = int64(rapid.SampledFrom([]int{50, 4000, 100000}).Draw(t, "cap")) // never fewer than the live values
+			}
 			if keyed {
 				r.ParamKey = "k"
 			} else {
